@@ -1,11 +1,12 @@
-"""usage: seed_meta.py <PROP>-<tag> <detected:yes|no> "<what it needs to manifest>" "<which check classes fired / why missed>" """
+"""usage: seed_meta.py <PROP>-<tag> <detected:yes|no> "<what it needs to manifest>" "<which check classes fired / why missed>" [reported|missed: outcome of the FIRST evaluation] """
 import json, sys, os, subprocess
 name, detected, needs, how = sys.argv[1:5]
+first = sys.argv[5] if len(sys.argv) > 5 else ("reported" if detected == "yes" else "missed")
 d = os.path.join("/verif/seeded", name)
 meta = {"property": name.split("-")[0], "source": "independent sub-agent given only the property text and its own scratch worktree of /repo",
         "base_commit": subprocess.run(["git", "-C", "/repo", "rev-parse", "--short", "HEAD"], capture_output=True, text=True).stdout.strip(),
         "needs_to_manifest": needs,
-        "confirmed": {"demo_on_unchanged_tree": "exit 0", "demo_with_change": "exit 1", "how": "tools/eval_seed.sh (demo in agent worktree with the change; demo against the /verif build of unchanged /repo; named test files with the change)"},
-        "check_result": {"detected": detected == "yes", "detail": how, "command": "selftest_run.sh seeded/%s/patch.diff %s" % (name, name.split("-")[0])}}
+        "confirmed": {"demo_on_unchanged_tree": "exit 0", "demo_with_change": "exit 1", "how": "tools/eval_seed.sh (demo in agent worktree with the change; demo against the /verif build of unchanged /repo; whole pinned suite with the change via tools/baseline_check.py BASELINE_REPO=<worktree>)"},
+        "check_result": {"detected": detected == "yes", "first_evaluation": first, "detail": how, "command": "selftest_run.sh seeded/%s/patch.diff %s" % (name, name.split("-")[0])}}
 json.dump(meta, open(os.path.join(d, "meta.json"), "w"), indent=1)
 print("wrote", os.path.join(d, "meta.json"))
